@@ -4,23 +4,30 @@ import engine_common as ec
 import engine_plugin as ep
 from vlib import Case, Stream
 import c06intern as ci
+import c01rank as rk
+import os
+from vlib import BUILD, model_cmd
 
 ID = "C06"
-LEAN_MODULES = ["HgVerif.Props.C06", "HgVerif.Props.C06Den", "HgVerif.Props.C06Run", "HgVerif.Model.Engine", "HgVerif.Model.Extracted"] + ci.LEAN_MODULES
+LEAN_MODULES = ["HgVerif.Props.C06", "HgVerif.Props.C06Den", "HgVerif.Props.C06Run", "HgVerif.Model.Engine", "HgVerif.Model.Extracted", "HgVerif.Props.C01Rank"] + ci.LEAN_MODULES
 THEOREMS = ["HgVerif.Intern.intern_equal_keys_share", "HgVerif.Intern.intern_distinct_keys_differ",
             "HgVerif.Intern.sinks_never_merged", "HgVerif.Intern.identical_sinks_distinct", "HgVerif.Intern.inv_addNode",
             "HgVerif.Intern.addNode_id_lt", "HgVerif.Rank.kahn_free_irrelevant", "HgVerif.Sched.cycle_strictly_increasing",
             "HgVerif.Flow.disc_beh", "HgVerif.Flow.scanFrom_eq_denSeq", "HgVerif.Flow.sol_unique", "HgVerif.Flow.denSeq_sol",
             "HgVerif.Flow.cycle_eq_denSeq", "HgVerif.Flow.cycle_rank_independent", "HgVerif.Flow.fired_rank_independent",
             "HgVerif.Flow.cycle_rank_independent_fun", "HgVerif.Flow.scanFrom_slots",
-            "HgVerif.Flow.cycle_view_independent", "HgVerif.Flow.next_of_views", "HgVerif.Flow.cycle_rel", "HgVerif.Flow.run_rank_independent"] + ci.THEOREMS
-CXX_TARGETS = ["hgv_engine"] + ci.CXX_TARGETS
+            "HgVerif.Flow.cycle_view_independent", "HgVerif.Flow.next_of_views", "HgVerif.Flow.cycle_rel", "HgVerif.Flow.run_rank_independent",
+            "HgVerif.Rank.kahn_perm", "HgVerif.Rank.kahn_edges_forward", "HgVerif.Rank.kahn_accepts_dags", "HgVerif.Rank.finish_ok_iff"] + ci.THEOREMS
+CXX_TARGETS = ["hgv_engine", "hgv_rank"] + ci.CXX_TARGETS
 USES_EXTRACT = True
 RULE = ("each case holds ONE dataflow wired in 3-4 different admissible statement orders (random linear extensions), run one after "
         "the other; dataflows contain duplicated sub-expressions (same definition with same scalar and inputs, other scalar, swapped "
         "inputs) and duplicated identical sinks; all orders must give identical cycle times, per-cycle user-code runs, sink streams "
         "and node counts, and the node count must equal 'distinct keys + sinks'; non-trivial = >=2 cycles and a shared or a "
-        "deliberately distinct duplicate; distinct by program text")
+        "deliberately distinct duplicate; distinct by program text; stream rank-orders: one acyclic wiring (1-14 dummy nodes, 0-3 inputs, "
+        "duplicated producers on one consumer, explicit rank dependencies, rank-free edges) declared in 3 different statement orders - "
+        "the real Wiring::finish must accept every order and rank every producer before its consumers (the hypothesis of "
+        "run_rank_independent)")
 TRUSTED = ["key equality on Value scalars uses the code's Value::equals/hash: exercised for Int scalars only"]
 ASSUMPTIONS = ["all ports TS[int]; interning of nested-graph nodes is exercised only through distinct scalars"]
 TECHNIQUE = ("Lean 4 proof of the interning table (equal keys share, different keys differ, sinks never merge) + rank/scan "
@@ -56,7 +63,29 @@ def streams(rng, tier, seed):
     for i in range(n):
         p = ec.gen_sharing(rng) if i % 3 else ec.gen_flat(rng, sched=(i % 2 == 0))
         cases.append(make_case(rng, i, p, rng.choice([3, 4])))
-    return [Stream("engine-orders", [ec.ENGINE], ec.model_cmd("Engine"), cases, timeout=900)] + ci.streams(rng, tier, seed)
+    return [Stream("engine-orders", [ec.ENGINE], ec.model_cmd("Engine"), cases, timeout=900),
+            Stream("rank-orders", [os.path.join(BUILD, "hgv_rank")], model_cmd("C01Rank"), rank_order_cases(rng, tier))] + ci.streams(rng, tier, seed)
+
+
+def rank_order_cases(rng, tier):
+    """the hypothesis of run_rank_independent, per statement order: ONE wiring (accepted: no cycle, no push source with a
+    producer, no unbound reference) declared in three different statement orders; each must be accepted and ranked
+    producers-first by the real rank pass"""
+    n, cases, idx = (150 if tier == "quick" else 4000), [], 0
+    while len(cases) < 3 * n:
+        base = rk.gen_case(rng, 0)
+        if rk.expected_class(rk.parse(base)) != "ok":
+            continue
+        nodes = [l for l in base.lines if l.startswith("node ")]
+        rest = [l for l in base.lines if l.split()[0] in ("dep", "pair")]
+        for j in range(3):
+            order = list(nodes)
+            if j == 1:
+                order.reverse()
+            elif j == 2:
+                rng.shuffle(order)
+            cases.append(Case(["case %d" % idx] + order + rest + ["finish"])); idx += 1
+    return cases
 
 
 def _segments(case, out):
@@ -73,6 +102,9 @@ def _segments(case, out):
 def monitor(stream, case, out):
     if stream.startswith("intern"):
         return ci.monitor(stream, case, out)
+    if stream == "rank-orders":
+        return ["[order-rank] this statement order of an acyclic wiring is not accepted with a producers-first rank: " + m
+                for m in rk.monitor(stream, case, out)]
     bad = []
     segs = _segments(case, out)
     views = []
@@ -105,6 +137,8 @@ def monitor(stream, case, out):
 def features(stream, case, out):
     if stream.startswith("intern"):
         return ci.features(stream, case, out)
+    if stream == "rank-orders":
+        return ["rank-orders:" + f for f in rk.features(stream, case, out)]
     f = set()
     segs = _segments(case, out)
     f.add("orders:%d" % len(segs))
@@ -125,6 +159,8 @@ def features(stream, case, out):
 def nontrivial(stream, case, out):
     if stream.startswith("intern"):
         return ci.nontrivial(stream, case, out)
+    if stream == "rank-orders":
+        return rk.nontrivial(stream, case, out)
     segs = _segments(case, out)
     if len(segs) < 2:
         return False
@@ -135,6 +171,8 @@ def nontrivial(stream, case, out):
 def alarm_filter(stream, case, impl_out, model_out):
     if stream.startswith("intern"):
         return ci.alarm_filter(stream, case, impl_out, model_out)
+    if stream == "rank-orders":
+        return rk.alarm_filter(stream, case, impl_out, model_out)
     # compare run lines canonically; every other line must be equal
     for l, a, b in zip(case.lines, impl_out, model_out):
         if a != b:
@@ -146,6 +184,8 @@ def alarm_filter(stream, case, impl_out, model_out):
 def valid_case(stream, case, impl_out, model_out):
     if stream.startswith("intern"):
         return ci.valid_case(stream, case, impl_out, model_out)
+    if stream == "rank-orders":
+        return rk.expected_class(rk.parse(case)) == "ok"
     for o in (impl_out, model_out):
         if o is None:
             continue
